@@ -23,7 +23,7 @@ RULE = ("case = (client kind in Client/PooledClient/single-server HashClient (po
         "returns exactly the bytes (no serde: str/int as their encoded text) or an equal value of identical type "
         "(serde); multi-key results contain exactly the requested keys the server holds, each under the caller's own "
         "key object with that key's value; every command on the wire carries prefix+key and no returned key carries "
-        "the prefix. Non-trivial: the value contains CR LF or is >= 4094 bytes, or the fetch is multi-key with >= 2 "
+        "the prefix. Twins (consecutive items of different type with byte-identical serialized payload, around the compression threshold) are stored through one client and one serializer object; optionally the same items are fetched again under the other spelling (str <-> bytes) of their keys and then under the first spelling again, each answer keyed by that call's own key objects. Non-trivial: the value contains CR LF or is >= 4094 bytes, or the fetch is multi-key with >= 2 "
         "present keys, or a prefix is configured, or the key collection is not a list.")
 MANIFEST = {
     "category": "exploration",
@@ -197,6 +197,31 @@ def check(case):
                 got = got[0]
             if not same(got, exp[i]):
                 raise Violation(["value-differs", f_op, type(v).__name__], "%s[%r] = %s, stored %s: %s" % (f_op, k[:30], _short(got), _short(exp[i]), desc))
+    # the same items asked for under the other spelling of their keys (str <-> bytes), then under the first one again:
+    # every answer is keyed by the key objects of THAT call
+    if case.get("respell"):
+        def other(k):
+            try:
+                return k.decode("ascii") if isinstance(k, bytes) else k.encode("ascii")
+            except UnicodeError:
+                return None
+        pairs = [(k, other(k)) for k, _ in items]
+        if all(o is not None for _k, o in pairs):
+            multi_op = f_op if f_op in ("get_many", "gets_many") else "get_many"
+            for rnd, pick in enumerate((1, 0, 1, 0)):
+                ks = [pr[pick] for pr in pairs]
+                if f_op in ("get_many", "gets_many") or rnd >= 2:
+                    r = call(getattr(c, multi_op), list(ks))
+                    if sorted(map(repr, r)) != sorted(map(repr, ks)):
+                        raise Violation(["respelled-keyset", multi_op], "%s(%r) (round %d, the same items had been fetched under the other spelling before) returned keys %r: %s"
+                                        % (multi_op, _short(ks), rnd, _short(list(r)), desc))
+                    vals = [r[k][0] if multi_op == "gets_many" else r[k] for k in ks]
+                else:
+                    vals = [call(c.get, k) for k in ks]
+                for i, got in enumerate(vals):
+                    if not same(got, exp[i]):
+                        raise Violation(["respelled-value", f_op], "fetching %r (round %d; the other spelling of this key had been used on the same object before) returned %s, stored %s: %s"
+                                        % (ks[i][:30], rnd, _short(got), _short(exp[i]), desc))
     for a in case.get("stats_after", ()):
         env.call(c.stats, a)
         sl = [e for e in srv.log if e.get("verb") == b"stats"]
@@ -288,7 +313,7 @@ def case_strategy(draw, tier="quick"):
     coll = draw(st.sampled_from(["list", "tuple", "set", "dictview", "iter", "generator"]))
     pieces = draw(st.one_of(st.none(), st.lists(st.sampled_from([1, 2, 3, 7, 13, 4095, 4096, 1 << 30]), min_size=1, max_size=6)))
     return {"kind": kind, "cfg": cfg, "serde": spec, "items": items, "absent": absent, "store": store, "fetch": fetch,
-            "coll": coll, "pieces": pieces, "noreply": draw(st.booleans())}
+            "coll": coll, "pieces": pieces, "noreply": draw(st.booleans()), "respell": draw(st.booleans())}
 
 
 def grid_cases(tier, seed):
@@ -316,6 +341,28 @@ def grid_cases(tier, seed):
                         yield {"kind": kind, "cfg": {"key_prefix": pfx, "allow_unicode_keys": False, "encoding": "ascii"}, "serde": None,
                                "items": [[word, ("bytes", b"mine")], ["other", ("bytes", b"x")]], "absent": [],
                                "store": "set", "fetch": fetch, "coll": "list", "pieces": None, "noreply": False, when: [word, "settings"]}
+    # twins: consecutive items of different type whose serialized payload is byte-identical (a str and its bytes, an
+    # object and its own pickle kept as bytes), around the compression threshold, through one client / one serializer
+    for spec, proto in ((("pickle", 0), 0), (("pickle", 5), 5), (("compressed", 10), S.DEFAULT_PICKLE_VERSION), (("compressed-default",), S.DEFAULT_PICKLE_VERSION), (("json",), None)):
+        for n in (3, 12, 450, 5000):
+            fams = [[("str", "x" * n), ("bytes", b"x" * n)], [("bytes", b"x" * n), ("str", "x" * n), ("bytes", b"x" * n)]]
+            if proto is not None:
+                obj = ("list", [("str", "ab" * n), ("int", n)])
+                fams += [[obj, ("payload-of", obj, proto)], [("payload-of", obj, proto), obj], [("int", 7 ** n), ("bytes", str(7 ** n).encode()), ("str", str(7 ** n))]]
+            for fi, fam in enumerate(fams):
+                for kind in ("client", "pooled", "hash"):
+                    for store, fetch in (("set", "get"), ("set_many", "get_many"), ("add", "gets_many")):
+                        yield {"kind": kind, "cfg": {"key_prefix": b"t:" if (n + fi) % 2 else b"", "allow_unicode_keys": False, "encoding": "ascii"}, "serde": spec,
+                               "items": [["k%d" % j, vd] for j, vd in enumerate(fam)], "absent": [], "store": store, "fetch": fetch, "coll": "list",
+                               "pieces": None, "noreply": False}
+    # the same items fetched under the other spelling of their keys and then under the first one again
+    for kind in ("client", "pooled", "hash", "hash-pooled"):
+        for pfx in (b"", b"p:"):
+            for fetch in ("get", "gets", "get_many", "gets_many"):
+                for keys in (["k", b"other"], [b"k"], ["a", "b", b"c"]):
+                    yield {"kind": kind, "cfg": {"key_prefix": pfx, "allow_unicode_keys": False, "encoding": "ascii"}, "serde": None,
+                           "items": [[k, ("bytes", b"value-of-%d" % j)] for j, k in enumerate(keys)], "absent": [], "store": "set", "fetch": fetch,
+                           "coll": "list", "pieces": None, "noreply": False, "respell": True}
     # every key-collection type x every multi-key fetch x every client kind
     for coll in ("list", "tuple", "set", "dictview", "iter", "generator"):
         for fetch in ("get_many", "gets_many"):
